@@ -213,10 +213,14 @@ where
             trace_targets.clone(),
             vec![(
                 trace_domain,
-                vec![
-                    (zeta, opened_trace_local_targets.clone()),
-                    (zeta_next, opened_trace_next_targets.clone()),
-                ],
+                {
+                    let mut points = vec![(zeta, opened_trace_local_targets.clone())];
+                    // The `zeta_next` opening is present only when the AIR accesses the next row.
+                    if air.opens_trace_next() {
+                        points.push((zeta_next, opened_trace_next_targets.clone()));
+                    }
+                    points
+                },
             )],
         ),
         (
@@ -244,16 +248,18 @@ where
             preprocessed_commit
                 .clone()
                 .expect("We checked in validate_proof_shape that the commit exists"),
-            vec![(
-                trace_domain,
-                vec![
-                    (zeta, opt_opened_preprocessed_local_targets.clone().unwrap()),
-                    (
+            vec![(trace_domain, {
+                let mut points =
+                    vec![(zeta, opt_opened_preprocessed_local_targets.clone().unwrap())];
+                // The `zeta_next` opening is present only when the AIR reads the next row.
+                if air.opens_preprocessed_next() {
+                    points.push((
                         zeta_next,
                         opt_opened_preprocessed_next_targets.clone().unwrap(),
-                    ),
-                ],
-            )],
+                    ));
+                }
+                points
+            })],
         ));
     }
 
@@ -463,10 +469,14 @@ where
         ..
     } = opened_values;
 
-    if opened_trace_local.len() != air_width || opened_trace_next.len() != air_width {
+    // The next-row openings are suppressed (empty) for AIRs that do not access them.
+    let expected_trace_next_len = if air.opens_trace_next() { air_width } else { 0 };
+    if opened_trace_local.len() != air_width || opened_trace_next.len() != expected_trace_next_len
+    {
         return Err(VerificationError::InvalidProofShape(format!(
-            "Expected opened_trace_local and opened_trace_next to have length {}, got {} and {}",
+            "Expected opened_trace_local and opened_trace_next to have length {} and {}, got {} and {}",
             air_width,
+            expected_trace_next_len,
             opened_trace_local.len(),
             opened_trace_next.len()
         )));
@@ -474,7 +484,14 @@ where
 
     let preprocessed_local_len = opened_prep_local.as_ref().map_or(0, |v| v.len());
     let preprocessed_next_len = opened_prep_next.as_ref().map_or(0, |v| v.len());
-    if preprocessed_width != preprocessed_local_len || preprocessed_width != preprocessed_next_len {
+    let expected_preprocessed_next_len = if air.opens_preprocessed_next() {
+        preprocessed_width
+    } else {
+        0
+    };
+    if preprocessed_width != preprocessed_local_len
+        || expected_preprocessed_next_len != preprocessed_next_len
+    {
         // Verifier expects preprocessed trace while proof does not have it, or vice versa
         return Err(VerificationError::InvalidProofShape(format!(
             "Expected preprocessed width {preprocessed_width} but local has length {preprocessed_local_len} and next has length {preprocessed_next_len}"
